@@ -177,6 +177,11 @@ func (prop) Extra(rng *rand.Rand, tier string) corr.ExtraResult {
 		}(i, c)
 	}
 	wg.Wait()
+	// concurrent delivery of the same valid commits (gossip validators run concurrently)
+	for k := 0; k < 3; k++ {
+		res.Evaluations++
+		res.Fails = append(res.Fails, concurrentGossip(rng.Int63n(1<<30), []int{2, 4, 8}[k])...)
+	}
 	res.Notes["configs"] = notes
 	res.Samples = notes
 	return res
